@@ -208,7 +208,7 @@ def run(ctx):
             src = bnp.as_encoded_array(text, senc)
             want = [text.upper()]
         before = decode_text(src)
-        if route in ("setitem", "list-of-elements") and (ragged or not text):
+        if route in ("setitem", "list-of-elements", "list-of-rows") and (ragged or not text):
             return
         try:
             if route == "setitem":
@@ -232,6 +232,12 @@ def run(ctx):
                 other = bnp.as_encoded_array("".join(talpha[:3]), tenc)
                 res = bnp.as_encoded_array(list(src) + list(other))
                 want = [text.upper() + "".join(talpha[:3])]
+            elif route == "list-of-rows":
+                # whole encoded rows of two alphabets in one Python list, the odd one in the middle (what joining rows taken from two tables gives)
+                talpha = [c.upper() for c in tenc.get_alphabet()]
+                other = bnp.as_encoded_array("".join(talpha[:3][::-1]), tenc)
+                res = bnp.as_encoded_array([src, other, src] if len(text) % 2 else [src, src, other, src])
+                want = [text.upper(), "".join(talpha[:3][::-1]), text.upper()] if len(text) % 2 else [text.upper(), text.upper(), "".join(talpha[:3][::-1]), text.upper()]
             elif route == "as_encoded_array":
                 res = bnp.as_encoded_array(src, tenc)
             elif route == "change_encoding":
@@ -264,15 +270,92 @@ def run(ctx):
             if tname == sname:
                 continue
             for t in texts:
-                for route in ("as_encoded_array", "change_encoding", "encode", "setitem", "list-of-elements"):
-                    if route in ("setitem", "list-of-elements") and len(t) > 2:
+                for route in ("as_encoded_array", "change_encoding", "encode", "setitem", "list-of-elements", "list-of-rows"):
+                    if route in ("setitem", "list-of-elements", "list-of-rows") and len(t) > 2:
                         continue
-                    items.append(((sname, senc), (tname, tenc), t, route, len(t) % 2 == 1 and route not in ("encode", "setitem", "list-of-elements")))
+                    items.append(((sname, senc), (tname, tenc), t, route, len(t) % 2 == 1 and route not in ("encode", "setitem", "list-of-elements", "list-of-rows")))
     if ctx.quick and len(items) > 400000:
         items = [it for i, it in enumerate(items) if i % 3 == ctx.seed % 3]
     for it in ctx.mine(items):
         ctx.run_case(retarget, it)
     ctx.sample({"retarget_item": ["ACGTEncoding", "ACTGEncoding", "ACG", "as_encoded_array"]})
+
+    # ---------------- C2. the same object re-targeted / decoded again after it was edited in place ---------------------------------
+    def again_after_edit(item):
+        (sname, senc), (tname, tenc), ragged, route = item
+        import random
+        r = random.Random(hash((sname, tname, ragged, route, ctx.seed)) & 0xffffffff)
+        salpha = [c.upper() for c in senc.get_alphabet()]
+        talpha = [c.upper() for c in tenc.get_alphabet()] if tenc is not BaseEncoding else []
+        common = [c for c in salpha if c in talpha] if tenc is not BaseEncoding else list(salpha)
+        if len(common) < 2:
+            return
+        rows = ["".join(r.choice(common) for _ in range(r.randint(2, 6))) for _ in range(3 if ragged else 1)]
+        x = bnp.as_encoded_array(rows if ragged else rows[0], senc)
+        f = {"change_encoding": lambda a: bnp.change_encoding(a, tenc), "as_encoded_array": lambda a: bnp.as_encoded_array(a, tenc), "decode": lambda a: senc.decode(a),
+             "to_string/tolist": lambda a: a.tolist() if ragged else a.to_string()}[route]
+        try:
+            first = f(x)
+        except Exception:
+            ctx.count("again_after_edit_refused")
+            return          # this pair is not re-targeted this way: nothing to repeat
+        new = next(c for c in common if c != rows[0][1])
+        if ragged:
+            x[0, 1] = new
+        else:
+            x[1] = new
+        rows[0] = rows[0][:1] + new + rows[0][2:]
+        try:
+            second = f(x)
+        except Exception as e:
+            ctx.check("again-after-edit", False, "again-after-edit/raised-the-second-time:%s" % route, "%s of a %s array worked, and raised %s after one letter of the array was replaced by another letter of the alphabet" % (route, sname, type(e).__name__),
+                      {"source": sname, "target": tname, "rows": rows, "route": route}, (sname, tname, ragged, route))
+            return
+        got = [t.upper() for t in (second if isinstance(second, list) else [second] if isinstance(second, str) else decode_text(second))]
+        if not ragged:
+            got = ["".join(got)]
+        ctx.check("again-after-edit", got == [t.upper() for t in rows], "again-after-edit/old-text:%s" % route, "%s of a %s array after x[..] = %r gave %r, the array now reads %r" % (route, sname, new, got, rows),
+                  {"source": sname, "target": tname, "rows": rows, "route": route, "got": got}, (sname, tname, ragged, route))
+        ctx.count("again_after_edit")
+
+    items2 = [((sn, se), (tn, te), rg, rt) for (sn, se) in encs for (tn, te) in list(encs) + [("BaseEncoding", BaseEncoding)] if tn != sn for rg in (False, True)
+              for rt in ("change_encoding", "as_encoded_array", "decode", "to_string/tolist")]
+    for it in ctx.mine(items2):
+        ctx.run_case(again_after_edit, it)
+
+    # ---------------- C3. k-mer encodings over the alphabets: text of k letters -> one code -> the same text, for every k whose codes fit 63 bits -------
+    def kmer_text(item):
+        from bionumpy.encodings.kmer_encodings import KmerEncoding
+        (name, enc), k, seed_ = item
+        import random
+        r = random.Random(seed_)
+        alphabet = [c.upper() for c in enc.get_alphabet()]
+        hi = alphabet[-1] * k                      # the largest code: every digit is the last letter
+        texts = [hi, "".join(r.choice(alphabet) for _ in range(k)), alphabet[0] * (k - 1) + alphabet[-1]]
+        ke = KmerEncoding(enc, k)
+        for text in texts:
+            for route in ("as_encoded_array(str)", "as_encoded_array(list)", "encode"):
+                try:
+                    if route == "as_encoded_array(str)":
+                        got = bnp.as_encoded_array(text, ke).to_string()
+                    elif route == "as_encoded_array(list)":
+                        got = bnp.as_encoded_array([text, texts[1]], ke)[0].to_string()
+                    else:
+                        e_ = ke.encode(text)
+                        got = ke.to_string(np.asarray(e_.raw() if hasattr(e_, "raw") else e_).ravel()[0])
+                except Exception as e:
+                    got = "raised %s" % type(e).__name__
+                if isinstance(got, list):
+                    got = "".join(got)
+                ctx.check("kmer-text", str(got).upper() == text, "kmer-encoding/text-differs:%s" % route.split("(")[0], "%d-mer %r over %s came back as %r via %s" % (k, text, name, got, route),
+                          {"encoding": name, "k": k, "text": text, "route": route, "got": str(got)}, (name, k, text, route))
+        ctx.count("kmer_texts")
+
+    import math
+    kitems = [((n, e), k, ctx.seed * 977 + i) for i, (n, e) in enumerate(encs) if not n.startswith(("Strand", "Cigar", "Digit")) for k in range(1, 32)
+              if k * math.log2(len(e.get_alphabet())) < 62.9]
+    for it in ctx.mine(kitems):
+        ctx.run_case(kmer_text, it)
 
     # ---------------- D. numeric and label encodings ---------------------------------------------
     def numeric(_):
